@@ -165,6 +165,12 @@ theorem isLastWriterB_spec (T : Trace) (j k v : Nat) (h : isLastWriterB T j k v 
   · exact h hjm
   · rw [(T.touchesB_iff m v).mpr ht] at h; cases h
 
+/-- finding class `value_written_by_another_activation`: the last step before `k` that touches `v` does so from another
+activation (a closure / callee writing a variable this function can see) -/
+def lastTouchIsForeign (T : Trace) (k v : Nat) : Bool :=
+  (List.range k).any (fun m => (match T[m]? with | some s => s.fwrites.contains v | none => false) &&
+    (List.range k).all (fun m' => !(decide (m < m')) || !T.touchesB m' v))
+
 /-- hypothesis `hgen` on a trace: every binding performed by a node is generated by its transfer function
 (activity analysis: actual writes ⊆ bound/params — property C08) -/
 def rdGenOK (D : CfgData) (T : Trace) : Bool :=
